@@ -140,5 +140,8 @@ func runCheck(id, tier, repo, verif string, seed int, only *Obligation) int {
 		fmt.Printf("replay: obligation %s | %s no longer exists on this tree\n", only.Rule, only.Construct)
 		return 1
 	}
+	if tier == "thorough" {
+		selfTestSeeded(id, verif, repo, r)
+	}
 	return r.finish(verif, t0, seed, strings.Join(os.Args, " "), cfgNames)
 }
